@@ -1,3 +1,46 @@
-import GenlmModel.Model.Basic
+import GenlmModel.Proofs.Cky
+import GenlmModel.Proofs.Tab
+/-! # C02 — every parser returns the derivation-sum weight of a string
+Headline statements only (proofs live in `Proofs/`).  `WN G n X x` is the sum of the weights of the
+derivation trees of height ≤ n of `x` from `X`; all statements hold in EVERY commutative semiring
+(so with rule weights as free indeterminates, `MvPolynomial ι ℕ`), for every grammar and string. -/
 namespace Genlm.Props.C02
+variable {σ K : Type} [DecidableEq σ] [CommSemiring K]
+
+/-- CKY leg (`CFG._parse_chart`, `IncrementalCKY`): for every CNF grammar the CKY recurrence with
+fuel |x|+1 returns the derivation sum at every level n > |x| — in particular the derivation sum of
+a CNF grammar is a finite sum, `0` for strings outside the language and for `[]` without a nullary
+start rule. -/
+theorem cky_correct (G : CFG σ K) (h : InCNF G) (x : List σ) (X : σ) (n : Nat) (hn : x.length + 1 ≤ n) :
+    insN G (x.length + 1) x X = WN G n X x := Genlm.cky_correct G h x X n hn
+
+/-- the oracle the real parsers are compared with: the driver's memo table IS `WN` -/
+theorem oracle_table_is_WN (G : CFG σ K) (xs : List (List σ)) (n : Nat) (X : σ) (u : List σ)
+    (hu : ∃ x ∈ xs, u <:+: x) : (WNtab G (tabKeys G xs) n).get X u = WN G n X u :=
+  Genlm.WNtab_spec G xs n X u hu
+
+/-- when the driver reports `stable`, the value is the full (finite) derivation sum -/
+theorem oracle_stable_is_limit (G : CFG σ K) (xs : List (List σ)) (n : Nat) (X : σ) (u : List σ)
+    (hu : ∃ x ∈ xs, u <:+: x) (h : WNtab G (tabKeys G xs) (n + 1) = WNtab G (tabKeys G xs) n) :
+    ∀ m, n ≤ m → WN G m X u = WN G n X u := Genlm.WN_stable_of_tab G xs n X u hu h
+
+/-- independence of rule order (hence of anything that only permutes the rule list, e.g. hash seeds) -/
+theorem rule_order_irrelevant (G : CFG σ K) (rules' : List (Rule σ K)) (hp : rules'.Perm G.rules) :
+    ∀ n X x, WN {G with rules := rules'} n X x = WN G n X x := Genlm.WN_perm G rules' hp
+
+/-- independence of symbol names (injective renaming) -/
+theorem names_irrelevant {τ : Type} [DecidableEq τ] (f : σ → τ) (hf : Function.Injective f) (G : CFG σ K) :
+    ∀ n X x, WN (renameCFG f G) n (f X) (x.map f) = WN G n X x := Genlm.WN_rename f hf G
+
+/-- non-vacuity: a CNF grammar with a non-zero value -/
+example : InCNF (⟨0, [5], [⟨2, 0, [1, 1]⟩, ⟨3, 1, [5]⟩]⟩ : CFG ℕ ℕ) ∧
+    insN (⟨0, [5], [⟨2, 0, [1, 1]⟩, ⟨3, 1, [5]⟩]⟩ : CFG ℕ ℕ) 3 [5, 5] 0 = 18 := by
+  constructor
+  · intro r hr
+    simp only [List.mem_cons, List.not_mem_nil, or_false] at hr
+    rcases hr with rfl | rfl
+    · refine ⟨by decide, Or.inr (Or.inr ⟨1, 1, rfl, by decide, by decide, by decide, by decide⟩)⟩
+    · exact ⟨by decide, Or.inr (Or.inl ⟨5, rfl, by decide⟩)⟩
+  · decide
+
 end Genlm.Props.C02
